@@ -487,6 +487,7 @@ void HttpRequest::read()
 	}
 
 	_path = Url::decode(_res.substring(0, pathend));
+	_path.fix(); // cut at a decoded NUL ("%00"): it would hide the rest of the path from the checks below
 
 	if(_path.contains(".."))
 		_path = _path.replace("..", "");
